@@ -26,6 +26,18 @@ CHECKS = {
             "the reference semantics is a Python transcription of the specification, not (yet) a "
             "Coq definition; exact laws decided on exact-safe programs only",
             "section 6 C02"),
+    "C04": ("proof",
+            "Coq theorems: toJson is strict JSON for every tree and every arithmetic instance; "
+            "fromJson(toJson(leaf)) is the immutable leaf with the same numbers and the inherited "
+            "name for Count/Sum/Average/Deviate/Minimize/Maximize (exact instance, both name "
+            "positions), Deviate's variance/vte conversion loses nothing; " + TIE + ": the model's "
+            "toJson document is compared token by token with the implementation's, the model's "
+            "fromJson result with the implementation's reload, and fixpoint / interchangeability "
+            "under +, *, zero, copy are evaluated on the implementation's documents",
+            "partial: the round trip of the container primitives and the algebra on the reload are "
+            "decided by the document correspondence and the oracle on generated trees, not by a Coq "
+            "theorem; via-string / via-file loading is exercised on the implementation only",
+            "section 6 C04"),
     "C05": ("proof",
             "Coq theorems (exact instance): the bookkeeping invariant holds at zero and is "
             "preserved by every successful fill (the weight reaches exactly one bin), by + and by "
@@ -74,6 +86,17 @@ CHECKS = {
             "faults are injected through quantity functions; collections/Fraction/Stack are outside "
             "the guarantee as the property says",
             "section 6 C12"),
+    "C15": ("proof",
+            "Coq theorems about the reader model for EVERY document and every arithmetic instance: "
+            "an accepted document has exactly the header keys, an accepted version and a registered "
+            "type; a non-object document or fragment, an unknown type name anywhere, a missing "
+            "required key or an extra key in the fragment of any primitive are rejected; " + TIE +
+            ": the model's accept/reject decision and the loaded content are compared with "
+            "Factory.fromJson on valid documents and on single-point mutants at random positions",
+            "rejection of ill-typed field VALUES, malformed list elements and negative entries is "
+            "decided by the correspondence + oracle on generated mutants (the reader model has these "
+            "branches but no closed-form theorem is stated for them)",
+            "section 6 C15"),
     "C16": ("proof",
             "Coq theorem about the guard as coded (identity list threaded through a pre-order walk): "
             "it raises exactly when some object occupies two fillable positions; a rejected fill "
